@@ -56,7 +56,7 @@ def rule_byte_offsets(ctx, rid):
         else:
             ok_sites.add((f.id, bi))
             ctx.ok(rid, key, "byte offsets")
-    ctx.floor(rid, "str_slice_sites", len(sites), 2)
+    ctx.floor(rid, "str_slice_sites", len(sites), 1)
     ctx.count(rid + "_position_fields", {"%s.%s" % (n[0].split("::")[-1], n[1]): sorted(u) for n, u in U.unit.items()})
     return ok_sites
 
@@ -121,7 +121,7 @@ def rule_indent_pairing(ctx, rid):
             ctx.violation(rid, f.short, "%s: indentation is %s on some path (an unmatched decrement panics in Indent::sub_assign; an unmatched increment mis-indents the rest)" % (f.short, bad[0]), b.site(bad[1]), f.short)
         else:
             ctx.ok(rid, f.short, "%d indent changes, balanced" % len(deltas))
-    ctx.floor(rid, "indent_sites", n_sites, 4)
+    ctx.floor(rid, "indent_sites", n_sites, 2)
     return ok_all
 
 
@@ -212,4 +212,4 @@ def rule_text_verbatim(ctx, rid, prefix="lef21::read::"):
             else:
                 ctx.ok(rid, key, "only compared / parsed")
     ctx.count("text_transform_sites", n_sites)
-    ctx.floor(rid, "token_text_reads", n_txt, 5)
+    ctx.floor(rid, "token_text_reads", n_txt, 2)
